@@ -29,6 +29,9 @@ type PlugStep struct {
 
 type PlugScript struct {
 	Steps []PlugStep `json:"steps"`
+	// Burst: all messages are written at once, without waiting for the
+	// client's reply to each (the replies are read afterwards)
+	Burst bool `json:"burst,omitempty"`
 }
 
 // PlugEvent is one line of the transcript.
@@ -95,7 +98,9 @@ func MaybeRunPlugin() {
 	// the start log is shared by all sentinels and decoys of a case
 	appendEvent(dir, PlugEvent{Kind: "start", Exe: os.Args[0], Args: os.Args[1:], Cwd: cwd, Data: exe})
 	var script PlugScript
-	if b, err := os.ReadFile(filepath.Join(dir, "script.json")); err == nil {
+	if b, err := os.ReadFile(filepath.Join(dir, "script-"+strings.TrimPrefix(base, "age-plugin-")+".json")); err == nil {
+		json.Unmarshal(b, &script) // a script of this plugin name's own
+	} else if b, err := os.ReadFile(filepath.Join(dir, "script.json")); err == nil {
 		json.Unmarshal(b, &script)
 	} else {
 		os.Exit(0) // a pure sentinel: being started is all that matters
@@ -116,6 +121,32 @@ func MaybeRunPlugin() {
 		}
 	}
 	appendEvent(dir, PlugEvent{Kind: "phase1", Data: p1.String()})
+	if script.Burst {
+		var all strings.Builder
+		closeNow := false
+		for _, s := range script.Steps {
+			all.WriteString(s.Raw)
+			if s.CloseNow {
+				closeNow = true
+				break
+			}
+		}
+		io.WriteString(os.Stdout, all.String())
+		appendEvent(dir, PlugEvent{Kind: "sent", Data: all.String()})
+		_ = closeNow
+		// everything has been said: end of output (the client still finds all of it in the pipe)
+		os.Stdout.Close()
+		for {
+			st, err := readStanzaRaw(in)
+			if err != nil {
+				break
+			}
+			appendEvent(dir, PlugEvent{Kind: "reply", Data: st})
+		}
+		os.Stdout.Close()
+		appendEvent(dir, PlugEvent{Kind: "end", Data: "burst finished"})
+		os.Exit(0)
+	}
 	for _, s := range script.Steps {
 		if s.Helper {
 			if self, err := os.Executable(); err == nil {
@@ -176,6 +207,16 @@ func ReadTranscript(dir string) []PlugEvent {
 
 // InstallPlugin creates dir/bin/age-plugin-NAME -> test binary and writes the
 // script. It returns the bin directory to put on PATH.
+// InstallPluginNamed is InstallPlugin with a script that only the plugin of
+// this name plays (several differently behaving plugins in one case).
+func InstallPluginNamed(caseDir, binDir, name string, script *PlugScript) error {
+	if err := InstallPlugin(caseDir, binDir, name, nil); err != nil {
+		return err
+	}
+	b, _ := json.Marshal(script)
+	return os.WriteFile(filepath.Join(caseDir, "script-"+name+".json"), b, 0o644)
+}
+
 func InstallPlugin(caseDir, binDir, name string, script *PlugScript) error {
 	if err := os.MkdirAll(binDir, 0o755); err != nil {
 		return err
